@@ -473,3 +473,94 @@ def gen_fit_c12(rng, quick=True, recovery=False):
         "circuit": cdc,
         "kwargs": kwargs,
     }
+
+
+# ---------------------------------------------------------------------------
+# C08: every analysis entry point, always with masked points
+# ---------------------------------------------------------------------------
+NEG_RESISTANCE = "R{R=100}(R{R=-300/-1e6/0}C{C=1e-5})"
+
+
+def _masked(rng, n):
+    k = rng.randint(1, max(1, n // 4))
+    return sorted(rng.sample(range(n), k))
+
+
+def gen_c08(rng, quick=True):
+    kind = rng.choices(["kk", "zhit", "drt", "fit"], [30, 30, 22, 18])[0]
+    logf = rng.choice([[5, 0], [4, -1], [5, -1]])
+    if kind == "kk":
+        n = rng.randint(14, 24 if quick else 36)
+        entry = rng.choice(["evaluate_log_F_ext", "perform_kramers_kronig_test", "perform_exploratory_kramers_kronig_tests"])
+        test = rng.choice(KK_LINEAR * 3 + ["cnls"])
+        kwargs = {"test": test, "add_capacitance": rng.random() < 0.7, "add_inductance": True if test.endswith("-inv") else rng.random() < 0.7,
+                  "num_F_ext_evaluations": rng.choice([0, 0, 10, 10, 14, -10])}
+        kwargs["admittance"] = (rng.random() < 0.4) if entry == "evaluate_log_F_ext" else rng.choice([False, True, None])
+        cdc = rng.choice(LADDERS + [NEG_RESISTANCE])
+        if test == "cnls":
+            n = rng.randint(8, 10)
+            kwargs.update({"num_F_ext_evaluations": 0, "max_nfev": 30, "timeout": 60})
+        elif kwargs["num_F_ext_evaluations"] == 0 and rng.random() < 0.4:
+            if entry == "perform_kramers_kronig_test":
+                kwargs["num_RC"] = rng.randint(3, 9)
+            else:
+                kwargs["num_RCs"] = sorted(rng.sample(range(2, 12), 4))
+        wl = {"entry": entry, "kwargs": kwargs}
+        stochastic = kwargs["num_F_ext_evaluations"] < 0
+    elif kind == "zhit":
+        n = rng.randint(8, 13)
+        auto = rng.random() < 0.35
+        kwargs = {
+            "smoothing": "auto" if auto and rng.random() < 0.6 else rng.choice(SMOOTHING),
+            "interpolation": "auto" if auto else rng.choice(INTERPOLATION),
+            "admittance": rng.random() < 0.45,
+            "num_points": rng.choice([3, 5]), "polynomial_order": 2,
+        }
+        w = rng.random()
+        if w < 0.4:
+            kwargs["weights"] = {"__ones__": True}
+        elif w < 0.55:
+            kwargs["weights"] = {"__ramp__": [0.1, 1.0]}
+        elif w < 0.9:
+            kwargs["window"] = rng.choice(["boxcar", "hann", "triang", "hamming"])
+            kwargs["center"] = float(rng.choice([1.5, 2.5]))
+            kwargs["width"] = float(rng.choice([3.0, 6.0]))
+        else:
+            kwargs["window"] = "auto"
+            kwargs["width"] = 6.0
+        cdc = rng.choice(LADDERS + [NEG_RESISTANCE, NEG_RESISTANCE])
+        wl = {"entry": "perform_zhit", "kwargs": kwargs}
+        stochastic = False
+    elif kind == "drt":
+        n = rng.randint(12, 22)
+        m = rng.choice(["tr-nnls", "tr-nnls", "lm", "bht", "mrq-fit"])
+        cdc = rng.choice(LADDERS[:3])
+        stochastic = False
+        if m == "tr-nnls":
+            kwargs = {"method": m, "mode": rng.choice(["real", "imaginary", "complex"]), "lambda_value": rng.choice([-1.0, -2.0, 1e-3])}
+        elif m == "lm":
+            kwargs = {"method": m, "model_order": rng.choice([0, 2, 3])}
+        elif m == "bht":
+            kwargs = {"method": m, "num_attempts": rng.randint(1, 3), "num_samples": 10}
+            stochastic = True
+        else:
+            fam = rng.choice(["R(RC)", "R(RQ)"])
+            p = family_params(rng, fam, logf)
+            cdc = family_cdc(fam, p)
+            kwargs = {"method": m, "circuit": {"__cdc__": family_cdc(fam, perturbed(rng, p, 1.5))}, "num_per_decade": 5}
+        wl = {"entry": "calculate_drt", "kwargs": kwargs}
+    else:
+        n = rng.randint(12, 20)
+        fam = rng.choice(FAMILIES[:4])
+        p = family_params(rng, fam, logf)
+        cdc = family_cdc(fam, p)
+        wl = {"entry": "fit_circuit", "circuit": family_cdc(fam, perturbed(rng, p, 2.0)),
+              "kwargs": {"method": rng.sample(FAST_METHODS, rng.randint(1, 3)), "weight": rng.sample(WEIGHTS, rng.randint(1, 2))}}
+        stochastic = False
+    wl["kind"] = kind
+    wl["stochastic"] = stochastic
+    wl["data"] = {
+        "cdc": cdc, "logf": logf, "n": n, "noise_pct": rng.choice([0.0, 0.1, 0.5]),
+        "noise_seed": rng.randrange(10**6), "mask": _masked(rng, n), "order": "desc",
+    }
+    return wl
